@@ -103,3 +103,9 @@ def _v14(repo, mod):
     fn = repo.func(TR, "ExecutionTracer.track_line_visit")
     body = "if self.is_disabled():\n            return\n        self.check()\n        " + mod.segment(fn.body[0])
     return replace_nodes(mod, [(fn.decorator_list[0], "staticmethod(lambda f: f).__func__"), (fn.body[0], body)])
+
+
+@variant("C02", "proxy-deduplicates-line-visits", TR, "C02.api", "the instrumentation proxy drops repeated line ids (seed C02-d)")
+def _v15(repo, mod):
+    fn = repo.func(TR, "InstrumentationExecutionTracer.track_line_visit")
+    return insert_before(mod, fn.body[-1], "if line_id == getattr(self, '_last_line_id', -1):\n    return\nself._last_line_id = line_id")
